@@ -217,6 +217,16 @@ func checkC14(c c14Case) (o vstat.Outcome) {
 				}
 			}
 		}
+		if !refused {
+			// ... and only then: a key the conversion accepts can be encrypted to
+			pk, uerr := crypto.UnmarshalEd25519PublicKey(in)
+			if uerr != nil {
+				return vstat.Viol("valid-point-refused-as-key", "UnmarshalEd25519PublicKey(%x): %v", in, uerr)
+			}
+			if ct, eerr := peer.EncryptToPubKey(pk, "c14", []byte("m")); eerr != nil || len(ct) == 0 {
+				return vstat.Viol("encrypt-refuses-convertible-key", "EncryptToPubKey to %x (a large-order point the conversion accepts) returned %d bytes, err=%v", in, len(ct), eerr)
+			}
+		}
 		if decodable {
 			if lo := extra25519.IsEdLowOrder(in); lo != lowOrder {
 				return vstat.Viol("low-order-classifier", "IsEdLowOrder(%x)=%v, reference [8]P==identity: %v", in, lo, lowOrder)
